@@ -7,6 +7,11 @@ sub-command and option subset of an independent, hand-written table `command lin
 the formula returned by the command line tool equals (variables, names, clauses) the formula returned by
 the documented library call on the same numbers and the same graphs; `-T` chains equal the left fold of the
 library transformations; kthlist2pebbling equals `peb`; -q / -v / -of select the variant and nothing else.
+`session`: several command lines run one after the other in ONE process over the same graph file(s) — the same file
+(or the same
+deterministic construction) named twice on one line, in consecutive runs, by both tools — with graph modifiers on some
+occurrences; each run against the library call on graphs obtained independently of the command line's graph-argument
+machinery (readGraph / the library constructor / a private copy for the modifiers).
 """
 import io
 import os
@@ -29,6 +34,8 @@ from cnfgen.formula.opb import OPB
 
 RULE = ("hand-written table of (sub-command argv, documented library call) for every formula sub-command x option "
         "subsets x small parameter grids, -T chains of length <= 3, both tools (cnfgen -> CNF, pbgen -> OPB); "
+        "sessions of 2-4 consecutive in-process runs over the same graph file (named twice on a line / in consecutive "
+        "runs / by both tools, every supported file format) with a graph modifier on some occurrences; "
         "distinct = distinct argv; all non-trivial")
 ASSUMPTIONS = ["argparse itself is third-party: validated by this differential check, not modelled",
                "graph arguments are resolved by make_graph_from_spec on both sides (C15 covers what they build)"]
@@ -222,11 +229,196 @@ def split_req(argv):
     return req("splitT", parts)
 
 
+# ------------------------------------------------------------------ sessions: consecutive runs over the same files
+SESSION_FILES = {
+    "simple": {
+        "g.kthlist": "c a graph\n5\n1 : 2 3 0\n2 : 1 0\n3 : 1 4 0\n4 : 3 0\n5 : 0\n",
+        "g.dimacs": "c a graph\np edge 5 4\ne 1 2\ne 2 3\ne 3 4\ne 1 5\n",
+        "g.gml": 'graph [\n  node [\n    id 0\n    label "1"\n  ]\n  node [\n    id 1\n    label "2"\n  ]\n  node [\n    id 2\n    label "3"\n  ]\n'
+                 '  node [\n    id 3\n    label "4"\n  ]\n  edge [\n    source 0\n    target 1\n  ]\n  edge [\n    source 1\n    target 2\n  ]\n'
+                 '  edge [\n    source 0\n    target 3\n  ]\n]\n',
+        "g.dot": "strict graph {\n1;\n2;\n3;\n4;\n1 -- 2;\n3 -- 4;\n2 -- 3;\n}\n",
+    },
+    "bipartite": {
+        "b.kthlist": "c bipartite\n7\n1 : 4 5 0\n2 : 5 6 0\n3 : 7 0\n",
+        "b.matrix": "3 4\n1 1 0 0\n0 1 1 0\n0 0 0 1\n",
+    },
+    "dag": {
+        "d.kthlist": "c a dag\n4\n1 : 0\n2 : 0\n3 : 1 2 0\n4 : 2 3 0\n",
+        "d.dimacs": "p edge 4 3\ne 1 3\ne 2 3\ne 3 4\n",
+    },
+}
+# sub-command templates: (argv with graph slots A, B; library function; arguments with the same slots; keywords)
+SESSION_CMDS = {
+    "simple": [
+        (["iso", "A", "-e", "B"], "GraphIsomorphism", ["A", "B"], {}),
+        (["iso", "A"], "GraphAutomorphism", ["A"], {}),
+        (["subgraph", "-G", "A", "-H", "B"], "SubgraphFormula", ["A", "B"], {"induced": False, "symbreak": False}),
+        (["kcolor", "3", "A"], "GraphColoringFormula", ["A", 3], {}),
+        (["kclique", "3", "A"], "CliqueFormula", ["A", 3, True], {}),
+        (["matching", "A"], "PerfectMatchingPrinciple", ["A"], {}),
+        (["tiling", "A"], "Tiling", ["A"], {}),
+        (["domset", "2", "A"], "DominatingSet", ["A", 2], {"alternative": False}),
+        (["tseitin", "first", "A"], "TseitinFormula", ["A", "first-of-A"], {}),
+        (["op", "A"], "GraphOrderingPrinciple", ["A"], {"total": False, "smart": False, "plant": False, "knuth": 0}),
+    ],
+    "bipartite": [
+        (["php", "A"], "GraphPigeonholePrinciple", ["A"], {"functional": False, "onto": False}),
+        (["php", "A", "--functional"], "GraphPigeonholePrinciple", ["A"], {"functional": True, "onto": False}),
+        (["subsetcard", "A"], "SubsetCardinalityFormula", ["A", False], {}),
+    ],
+    "dag": [
+        (["peb", "A"], "PebblingFormula", ["A"], {}),
+        (["stone", "2", "A"], "StoneFormula", ["A", 2], {}),
+    ],
+}
+SESSION_MODS = {"plantclique": [["0"], ["2"], ["3"]], "addedges": [["0"], ["1"], ["2"]], "splitedges": [["0"], ["1"]],
+                "plantbiclique": [["0", "0"], ["1", "2"], ["2", "2"]]}
+
+
+# deterministic constructions a graph slot may name instead of a file, with the library's own way to the same graph
+SESSION_CONSTRUCTIONS = {
+    "simple": [["grid", "2", "3"], ["torus", "3", "3"], ["complete", "4"], ["empty", "4"], ["grid", "5"]],
+    "bipartite": [["complete", "3", "4"], ["empty", "3", "3"], ["shift", "4", "3", "0", "1"]],
+    "dag": [["pyramid", "2"], ["tree", "2"], ["path", "4"]],
+}
+
+
+def library_construction(kind, spec):
+    import networkx
+    from cnfgen import graphs as g
+    name, a = spec[0], [int(x) for x in spec[1:]]
+    if kind == "simple":
+        if name in ("grid", "torus"):
+            return g.Graph.from_networkx(networkx.grid_graph(a, periodic=(name == "torus")))
+        return g.Graph.complete_graph(a[0]) if name == "complete" else g.Graph.empty_graph(a[0])
+    if kind == "bipartite":
+        if name == "shift":
+            return g.bipartite_shift(a[0], a[1], a[2:])
+        return g.CompleteBipartiteGraph(a[0], a[1]) if name == "complete" else g.BipartiteGraph(a[0], a[1])
+    return {"pyramid": g.dag_pyramid, "tree": g.dag_complete_binary_tree, "path": g.dag_path}[name](a[0])
+
+
+def gen_session(rng, i=None):
+    """`i`: position in the run's list of sessions — kinds, files and constructions are taken in turn, so that each file
+    format and each construction is the session's main graph argument a few times in every run"""
+    from cnfgen.clitools import graph_args
+    if i is None:
+        i = rng.randrange(10 ** 6)
+    kind = ["simple", "bipartite", "simple", "dag", "simple"][i % 5]
+    names = sorted(SESSION_FILES[kind])
+    j = i // 10
+    if (i // 5) % 2 == 0:
+        main_spec = ["@" + names[j % len(names)]]
+    else:
+        main_spec = list(SESSION_CONSTRUCTIONS[kind][j % len(SESSION_CONSTRUCTIONS[kind])])
+    mods = [o for o in graph_args.options[kind] if o != "save"]
+    runs = []
+    for _ in range(rng.randint(2, 4)):
+        argv_t, fname, args_t, kw = rng.choice(SESSION_CMDS[kind])
+        slots = {}
+        random_mods = 0
+        for slot in ("A", "B"):
+            if slot not in argv_t:
+                continue
+            spec = list(main_spec) if rng.random() < .8 else ["@" + rng.choice(names)]
+            if mods and rng.random() < .45:
+                o = rng.choice(mods)
+                a = rng.choice(SESSION_MODS.get(o, [["1"]]))
+                if all(x == "0" for x in a) or random_mods == 0:     # one consumer of the generator per line at most
+                    random_mods += 0 if all(x == "0" for x in a) else 1
+                    spec += [o] + a
+            slots[slot] = spec
+        argv = []
+        for t in argv_t:
+            argv += slots[t] if t in slots else [t]
+        runs.append({"tool": rng.choice(["cnfgen", "cnfgen", "pbgen"]), "seed": rng.randrange(10 ** 6), "argv": argv,
+                     "lib": {"f": fname, "args": [({"g": kind, "spec": slots[a]} if a in slots else a) for a in args_t], "kw": kw}})
+    return {"files": {n: SESSION_FILES[kind][n] for n in names}, "runs": runs}
+
+
+def run_session(info):
+    """None, or the first run whose formula differs from the library's"""
+    from cnfgen.graphs import readGraph, writeGraph
+    tmp = tempfile.mkdtemp(prefix="verif-c17s-")
+    copies = [0]
+    try:
+        for n, txt in info["files"].items():
+            with open(os.path.join(tmp, n), "w") as fh:
+                fh.write(txt)
+
+        def real(tok):
+            return os.path.join(tmp, tok[1:]) if tok.startswith("@") else tok
+
+        def graph(a):
+            """the graph a graph argument names, obtained without the command line's file reader: the documented
+            library reader for a bare file; the modifiers are applied to a private, single-use copy of the file"""
+            spec = a["spec"]
+            if not spec[0].startswith("@"):
+                # a construction: the library's own constructor; modifiers are applied to a private file holding it
+                k = 1
+                while k < len(spec) and spec[k] not in SESSION_MODS:
+                    k += 1
+                G0 = library_construction(a["g"], spec[:k])
+                if k == len(spec):
+                    return G0
+                copies[0] += 1
+                cp = os.path.join(tmp, "built-copy{}.kthlist".format(copies[0]))
+                writeGraph(G0, cp, a["g"])
+                return quiet(lambda: make_graph_from_spec(a["g"], [cp] + spec[k:]))
+            if len(spec) == 1:
+                return quiet(lambda: readGraph(real(spec[0]), a["g"]))
+            copies[0] += 1
+            base, ext = os.path.splitext(spec[0][1:])
+            cp = os.path.join(tmp, "{}-copy{}{}".format(base, copies[0], ext))
+            shutil.copyfile(real(spec[0]), cp)
+            return quiet(lambda: make_graph_from_spec(a["g"], [cp] + spec[1:]))
+        for i, run in enumerate(info["runs"]):
+            tool, s = run["tool"], run["seed"]
+            cli, fc = (cli_cnfgen, CNF) if tool == "cnfgen" else (cli_pbgen, OPB)
+            shown = [tool, "-q", "--seed", str(s)] + [t[1:] if t.startswith("@") else t for t in run["argv"]]
+            a_exc = A = None
+            try:
+                A = quiet(lambda: cli([tool, "-q", "--seed", str(s)] + [real(t) for t in run["argv"]], mode="formula"))
+            except BaseException as e:  # noqa
+                a_exc = e
+            lib = run["lib"]
+            try:
+                random.seed(s)
+                args = [graph(a) if isinstance(a, dict) else a for a in lib["args"]]
+                args = [([1] + [0] * (args[0].order() - 1) if args[0].order() else []) if a == "first-of-A" else a for a in args]
+                random.seed(s)
+                B = getattr(cnfgen, lib["f"])(*args, formula_class=fc, **lib["kw"])
+            except Exception:  # noqa
+                if a_exc is not None:
+                    continue                   # a clean refusal on both sides
+                return {"what": "the library refuses what the command line builds", "run": i, "command_line": shown,
+                        "session": [r["argv"] for r in info["runs"]]}
+            if a_exc is not None:
+                return {"cli_raised": type(a_exc).__name__, "msg": str(a_exc)[:200], "run": i, "command_line": shown,
+                        "session": [r["argv"] for r in info["runs"]]}
+            r = compare(A, B, " ".join(shown))
+            if r is not None:
+                r.update(run=i, session=[[r2["tool"]] + r2["argv"] for r2 in info["runs"]], files=info["files"],
+                         library_call=lib["f"])
+                return r
+        return None
+    finally:
+        shutil.rmtree(tmp, ignore_errors=True)
+
+
 def build(suite, info):
     if suite == "split":
         argv = [str(a) for a in info["argv"]]
         return Case(suite, split_req(argv), lambda: split_impl(argv), None,
                     cls="T=" + str(argv.count("-T")), nontrivial=len(argv) > 1, info=info)
+    if suite == "session":
+        first = info["runs"][0]
+        full = [first["tool"], "-q", "--seed", str(first["seed"])] + first["argv"]
+        kinds = sorted({t for r in info["runs"] for t in r["argv"] if t in SESSION_MODS})
+        twice = any(sum(1 for a in r["lib"]["args"] if isinstance(a, dict)) > 1 for r in info["runs"])
+        return Case(suite, split_req(full), lambda: split_impl(full), lambda: run_session(info),
+                    cls=("twice-on-a-line" if twice else "consecutive") + (":" + "+".join(kinds) if kinds else ""), info=info)
     if suite in ("cli_vs_lib", "chain", "k2p", "format"):
         # rebuilt by regenerating the run's cases with the recorded seed/tier and looking the argv up
         ctx = {"tier": info.get("tier", "quick"), "seed": info.get("seed", 0), "prop": "C17"}
@@ -371,6 +563,7 @@ def cases(ctx):
                         for vn in ([], ["--varnames"]):
                             p = os.path.join(tmp, "m.out")
                             argv = ["cnfgen", "-o", p] + fopts + q + vn + fam_argv
+                            last_argv[:] = argv
                             quiet(lambda: cli_cnfgen(argv, mode="output"))
                             got = open(p).read()
                             F = lib()
@@ -388,6 +581,7 @@ def cases(ctx):
                                  (".tex.opb", "opb"), (".opb.tex", "latex"), ("/../out", "dimacs"), (".tex.cnf", "dimacs")):
                     # "m/../name": a file called exactly `name` in the scratch directory
                     p = os.path.join(tmp, ext[4:]) if ext.startswith("/../") else os.path.join(tmp, "m" + ext)
+                    last_argv[:] = ["cnfgen", "-o", p, "--varnames"] + fam_argv
                     quiet(lambda: cli_cnfgen(["cnfgen", "-o", p, "--varnames"] + fam_argv, mode="output"))
                     F = lib()
                     buf = io.StringIO()
@@ -395,7 +589,13 @@ def cases(ctx):
                     if nocmd(open(p).read()) != nocmd(buf.getvalue()):
                         return {"what": "format chosen by extension differs from the library's", "ext": ext}
             return None
-        fmt_matrix_res = fmt_matrix()
+        last_argv = []
+        try:
+            fmt_matrix_res = fmt_matrix()
+        except (Exception, SystemExit) as e:  # a well-formed command line that the tool refuses is a failing input
+            fmt_matrix_res = {"what": "the tool fails on a well-formed command line of the format matrix",
+                              "argv": [a for a in last_argv if not a.startswith(tmp)], "exception": type(e).__name__,
+                              "message": str(e)[:200]}
         fullm = ["cnfgen", "--varnames", "-of", "opb", "php", "3", "2"]
         out.append(Case("format_matrix", split_req(fullm), lambda fullm=fullm: split_impl(fullm),
                         lambda r=fmt_matrix_res: r, cls="format", info={"argv": fullm}))
@@ -469,6 +669,10 @@ def cases(ctx):
         full = ["cnfgen", "-q"] + cmd
         out.append(Case("savedgraph", split_req(full), lambda full=full: split_impl(full), lambda r=r: r,
                         cls=cmd[0], info={"argv": full}))
+    # ---- sessions: consecutive in-process runs over the same graph files, modifiers on some occurrences
+    rngs = common.sub_rng(seed, "C17-session")
+    for i in range(60 if tier == "quick" else 500):
+        out.append(build("session", gen_session(rngs, i)))
     # ---- generator events of a seeded run: seed at parse time, seed again before the build (model: phase3)
     from harness.props import C07 as H07
     for cmd in (["randkcnf", "3", "6", "5"], ["kcolor", "3", "gnp", "6", ".5", "-T", "shuffle"], ["php", "5", "4", "2"]):
